@@ -136,4 +136,16 @@ def profile_const(run, F, tag):
             eff = T.find_all([x.get("t"), x.get("e")], lambda y: y.get("k") in ("assign", "assignop") or (y.get("k") in ("borrow", "rawborrow") and "Mut" in str(y.get("bk", y.get("m", "")))))
             run.ob(not eff, "profile-const|%s" % f.key, "%s premise: code under a compile-time constant condition (cfg!/debug_assert!) has no side effect, so dev and release builds behave alike" % tag,
                    "%s (%s)" % (f.key, f.file), "`if %s { .. }` contains %d assignment(s)/mutable borrow(s): behaviour differs between build profiles" % (x["c"].get("v"), len(eff)), distinct="profile-const")
-    run.ob(True, "profile-const-census", "%s premise" % tag, "crate bodies", sample={"bodies_scanned": n_fn, "constant_conditions": n_if, "with_side_effects": 0})
+    # conditional compilation that is not about the five evaluator features (debug_assertions, target, ...): the fact base shows one
+    # configuration of it only
+    from .props.c17 import cfg_census, cfg_names
+    from . import extract
+    n_cfg = 0
+    for rel, line, pred in cfg_census(extract.repo_dir()):
+        if pred == "cfg(test)":
+            continue
+        n_cfg += 1
+        names = cfg_names(pred)
+        run.ob(names <= {"feature"}, "profile-cfg|%s|%s" % (rel, pred[:60]), "%s premise: conditional compilation depends on the evaluator features only; the analysed configuration then stands for every profile and target" % tag,
+               "%s:%d" % (rel, line), pred[:200], distinct="profile-cfg")
+    run.ob(True, "profile-const-census", "%s premise" % tag, "crate bodies", sample={"bodies_scanned": n_fn, "constant_conditions": n_if, "with_side_effects": 0, "cfg_predicates_inspected": n_cfg})
